@@ -428,6 +428,7 @@ type runState struct {
 	curs         map[int64]*opCtx // per goroutine (concurrent mode)
 	pendingNames map[godi.Scope]string
 	orphans      []string // context state of scope objects whose creation failed
+	buildCancel  context.CancelFunc // set while a Build started with a cancellable context is in progress
 	creating     map[int64]string
 	instReg  map[int]string
 	waiters  map[godi.Scope]chan struct{}
@@ -645,6 +646,18 @@ func recCtor(fn string, ign bool, n int, args []argRec) (ids []int, reg string, 
 	case "nil":
 		return nil, reg, nil
 	}
+	if how == "cancel" {
+		// this constructor succeeds, but the context the Build in progress was started with is cancelled now
+		R.mu.Lock()
+		cancel := R.buildCancel
+		R.mu.Unlock()
+		if cancel != nil {
+			cancel()
+			if !quiet {
+				emit(M{"ev": "cancelbuild", "th": procName(), "reg": reg})
+			}
+		}
+	}
 	return ids, reg, nil
 }
 
@@ -772,6 +785,7 @@ func classify(err error) []string {
 			cs = append(cs, "panicval")
 		}
 	}
+	add(errors.Is(err, context.Canceled), "canceled")
 	add(asEither[godi.DisposalError](err), "disposal")
 	add(asEither[godi.ValidationError](err), "validation")
 	add(asEither[godi.BuildError](err), "build")
@@ -1125,7 +1139,27 @@ func doOp(o *Op) {
 					return
 				}
 			}
-			p, err := c.Build()
+			var p godi.Provider
+			var err error
+			withCancel := false
+			for _, f := range R.cfg.Faults {
+				withCancel = withCancel || f.How == "cancel"
+			}
+			if withCancel {
+				bctx, cancel := context.WithCancel(context.Background())
+				R.mu.Lock()
+				R.buildCancel = cancel
+				R.mu.Unlock()
+				p, err = c.BuildWithContext(bctx)
+				R.mu.Lock()
+				R.buildCancel = nil
+				R.mu.Unlock()
+				cancel()
+			} else if runNo%3 == 0 {
+				p, err = c.BuildWithOptions(&godi.ProviderOptions{BuildTimeout: time.Hour}) // same meaning as Build
+			} else {
+				p, err = c.Build()
+			}
 			ret["err"] = classify(err)
 			if err != nil {
 				ret["path"] = cyclePath(err)
